@@ -569,10 +569,26 @@ class ExprMixin:
         if conv == "s" and o.tyof(st, v) == "str":
             return o.s(v)
         if conv in "sd" and o.tyof(st, v) == "int":
-            return z3.IntToStr(o.i(v)) if False else w.fun("int_text", "int", "str")(o.i(v))
+            t = w.fun("int_text", "int", "str")(o.i(v))
+            st.assume(w.fun("int_ok", "str", "bool")(t))
+            st.assume(w.fun("int_parse", "str", "int")(t) == o.i(v))
+            return t
+        if conv == "s" and o.tyof(st, v) == "float":
+            from .smt import FP64
+            t = w.fun("float_text", FP64, "str")(o.f(v))
+            st.assume(w.fun("float_ok", "str", "bool")(t))
+            st.assume(z3.Implies(z3.Not(z3.fpIsNaN(o.f(v))), w.fun("float_parse", "str", FP64)(t) == o.f(v)))
+            return t
+        if conv == "s" and o.tyof(st, v) == "bool":
+            return z3.If(o.b(v), z3.StringVal("True"), z3.StringVal("False"))
         t = w.fun("text_of_" + conv, "V", "str")(v.e)
         if conv == "s":
+            from .smt import FP64
             st.assume(z3.Implies(w.V.is_str(v.e), t == w.V.s(v.e)))     # str(s) == s
+            st.assume(z3.Implies(w.V.is_int(v.e), z3.And(t == w.fun("int_text", "int", "str")(w.V.i(v.e)), w.fun("int_ok", "str", "bool")(t),
+                                                          w.fun("int_parse", "str", "int")(t) == w.V.i(v.e))))
+            st.assume(z3.Implies(w.V.is_flt(v.e), z3.And(t == w.fun("float_text", FP64, "str")(w.V.f(v.e)), w.fun("float_ok", "str", "bool")(t),
+                                                          z3.Implies(z3.Not(z3.fpIsNaN(w.V.f(v.e))), w.fun("float_parse", "str", FP64)(t) == w.V.f(v.e)))))
         return t
 
     # ------------------------------------------------------------------ displays
